@@ -7,7 +7,7 @@ the property statement over the abstract tree of contracts/etree_model.py.
 import z3
 
 from pyvc.contracts import FnContract, LoopSpec, Raises
-from pyvc.values import NONE, VBool, VExt, VInt, VNoneT, VRef, VSeq, VStr, VUnk, ext_sort, fresh_name
+from pyvc.values import NONE, VBool, VExt, VInt, VNoneT, VRef, VSeq, VStr, VTuple, VUnk, ext_sort, fresh_name
 from pyvc.verify import Maker, p_bool, p_int, p_obj, p_opt, p_str
 
 from contracts import c02_exec as X
@@ -18,7 +18,22 @@ from contracts.c02_text import NW, SQ, S, I, B, lit
 from contracts.c02_etree_model import ELEM, TAG, TEXT, TEXT_NONE, TAIL, TAIL_NONE, NCH, CH, ATTR, ATTR_HAS, p_elem
 
 SHARED = "sharepoint2text/parsing/extractors/open_office/_shared.py"
-EXECUTOR = X.C02Executor
+from contracts import C17 as _C17          # reused: heap model of the html tree builder (open lists, node dicts, frame computation)
+
+
+class C02FullExecutor(X.C02Executor, _C17.C17Executor):
+    """C02's executor plus C17's open-list / parser-object model (only the tree-builder contracts use the latter)."""
+
+
+EXECUTOR = C02FullExecutor
+
+# z3 budget per VC in the quick tier: every proved VC of this pack takes < 0.5 s; a wrong clause is typically `unknown` for z3's
+# sequence solver and `sat` for cvc5 within a second, so waiting the default 10 s per VC only delays refutations (PYVC_TIMEOUT_MS overrides)
+import os as _os
+if not _os.environ.get("PYVC_TIMEOUT_MS"):
+    from pyvc import solve as _solve
+    _solve.QUICK_TIMEOUT_MS = 4000
+EXECUTOR_KW = {"sharepoint2text/parsing/extractors/ms_legacy/rtf_extractor.py::_RtfParser._strip_rtf_full_with_pages": {"unknown_items_are_str": True, "feas_timeout_ms": 30}}
 
 
 def _sl(st, v):
@@ -122,7 +137,12 @@ ODF_KW = ["text_space_tag", "text_tab_tag", "text_line_break_tag", "attr_text_c"
 
 def odf_cfg(args):
     sk = args["skip_tags"]
-    skt = EMPTYSET if isinstance(sk, VNoneT) else sk.t
+    if isinstance(sk, VNoneT):
+        skt = EMPTYSET
+    elif isinstance(sk, X.VSetC):
+        skt = X.const_strset(sk.items) if sk.items else EMPTYSET
+    else:
+        skt = sk.t
     return tuple(args[k].t for k in ODF_KW) + (skt,)
 
 
@@ -697,6 +717,140 @@ def xls_contracts():
     )]
 
 
+# =====================================================================================
+# (d'') HTML tree builder  --  html_extractor.py::_HtmlTreeBuilder  (order of text around removed markup)
+#
+# The text walk emits text(n), then the children each followed by its tail.  The builder therefore keeps an
+# *insertion point*: data goes to the tail of `last_closed` if there is one, else to the text of the innermost open
+# element `stack[-1]`.  Statement ("same relative order as in the source", "content of removed markup never
+# appears"): removed markup is invisible -- events inside it move nothing: neither the tree nor the insertion point.
+#   skip_depth > 0 at entry  ->  handle_starttag / handle_endtag / handle_data / handle_comment change nothing
+#                                 but the skip bookkeeping (skip_depth and the remembered tag)
+#   skip_depth == 0          ->  handle_data(d) appends d at the insertion point, and nowhere else
+# (The class invariant and the region semantics proper are C17's obligations; heap model reused from contracts/C17.py.)
+# =====================================================================================
+def builder_contracts(reg):
+    C = _C17
+    reg.ext_models["str.lower"] = C.m_lower
+    reg.ext_models["str.split"] = C.m_split
+    reg.method_models[("HTMLParserBase", "__init__")] = lambda ex, st, obj, a, k, n: [(st, NONE)]
+    P_STR = Maker(lambda ex, st, name: VStr(z3.String(name)), desc="str")
+    P_ATTRS = Maker(lambda ex, st, name: VExt("AttrList"), desc="list of (name, value|None) pairs")
+
+    def sd0(c):
+        return c.entry.obj(c.args["self"].ref).data["skip_depth"].t
+
+    def req(c):
+        d = c.st.obj(c.args["self"].ref).data
+        r0 = frozenset(v.ref for v in (d["root"], d["last_closed"]) if isinstance(v, VRef))
+        c.st.ghost["reach0"] = r0
+        c.entry.ghost["reach0"] = r0
+        return sd0(c) >= 0
+
+    def untouched(c):
+        return z3.Implies(sd0(c) > 0, C.frame(c, C.skip_fields(C.HTML, C.HCLS, c.ex.module.repo)))
+
+    def at_insertion_point(c):
+        """skip_depth == 0: exactly one slot changes: last_closed.tail (if any) else stack[-1].text, by appending the data."""
+        d0 = c.entry.obj(c.args["self"].ref).data
+        ch = C.changes(c, C.skip_fields(C.HTML, C.HCLS, c.ex.module.repo))
+        if len(ch) != 1:
+            return z3.Implies(sd0(c) == 0, z3.BoolVal(False))
+        ref, k, a, b = ch[0]
+        if not (isinstance(a, VStr) and isinstance(b, VStr)):
+            return z3.Implies(sd0(c) == 0, z3.BoolVal(False))
+        lc = d0["last_closed"]
+        if isinstance(lc, VRef):
+            where = ref == lc.ref and k == "tail"
+        else:
+            so = c.st.heap[d0["stack"].ref]
+            top = (so.data["tail"][-1] if so.data["tail"] else so.data["mat"]) if so.kind == "olist" else None
+            where = isinstance(top, VRef) and ref == top.ref and k == "text"
+        return z3.Implies(sd0(c) == 0, z3.And(z3.BoolVal(bool(where)), b.t == z3.Concat(a.t, c.args["data"].t)))
+
+    out = []
+    for name, extra in (("handle_starttag", [("tag", P_STR), ("attrs", P_ATTRS)]), ("handle_endtag", [("tag", P_STR)]),
+                        ("handle_data", [("data", P_STR)]), ("handle_comment", [("data", P_STR)])):
+        ens = [("inside-removed-markup-tree-and-insertion-point-untouched", untouched)]
+        if name == "handle_data":
+            ens.append(("visible-data-appended-at-the-insertion-point", at_insertion_point))
+        if name == "handle_comment":
+            ens = [("comments-change-nothing", lambda c: C.frame(c, ()))]
+        out.append(FnContract(target=f"{HTML}::_HtmlTreeBuilder.{name}", params=[("self", C.html_self())] + extra, requires=req,
+                              ensures=ens, modifies=("self",)))
+
+    # EPUB chapter walker (same removed-markup discipline, text sinks instead of a tree)
+    def e_untouched(c):
+        sd = c.entry.obj(c.args["self"].ref).data.get("skip_depth")
+        if not isinstance(sd, VInt):
+            return z3.BoolVal(False)
+        return z3.Implies(sd.t > 0, C.frame(c, C.skip_fields(C.EPUB, C.ECLS, c.ex.module.repo)))
+    for name, extra in (("handle_starttag", [("tag", P_STR), ("attrs", P_ATTRS)]), ("handle_endtag", [("tag", P_STR)]), ("handle_data", [("data", P_STR)])):
+        out.append(FnContract(target=f"{C.EPUB}::{C.ECLS}.{name}", params=[("self", C.epub_self())] + extra,
+                              ensures=[("inside-removed-markup-text-sinks-and-layout-state-untouched", e_untouched)], modifies=("self",)))
+    return out
+
+
+# =====================================================================================
+# RTF group walker  --  rtf_extractor.py::_RtfParser._strip_rtf_full_with_pages  (destination skipping)
+#
+# Statement: "content of removed markup never appears" / headers, footers, pictures, objects ... are destinations whose
+# whole group is invisible.  Two-state property of ONE iteration of the character loop, from an arbitrary state
+# (g = group_depth, on = skip_group, d = skip_depth):
+#   a skip starts only on entering a group and targets that group:      not on and on'  ->  g' == g + 1 and d' == g'
+#   while skipping, the target is never changed and the skip ends only
+#   with the closing brace of the group that started it:                on -> (on' and d' == d) or (not on' and g == d and g' == g - 1)
+#   while skipping nothing is emitted:                                   on -> result, current_page unchanged
+# =====================================================================================
+RTF = "sharepoint2text/parsing/extractors/ms_legacy/rtf_extractor.py"
+IS_SKIP = z3.Function("rtf.is_skip_destination", S, B)
+
+
+def rtf_contracts():
+    unk = lambda: Maker(lambda ex, st, n: VUnk(n), desc="any")
+    p_self = p_obj("_RtfParser", {"pages": unk(), "SPECIAL_CHARS": unk(), "SKIP_DESTINATIONS": unk()})
+    isskip = FnContract(target=f"{RTF}::_RtfParser._is_skip_destination", params=[("self", p_self), ("ahead", p_str())], assumed=True,
+                        returns=lambda c: VBool(IS_SKIP(c.args["ahead"].t)), note="which control words are destinations is a table (uninterpreted here)")
+
+    def vars_(lc):
+        g, on, d = lc["group_depth"], lc["skip_group"], lc["skip_depth"]
+        if not (isinstance(g, VInt) and isinstance(on, VBool) and isinstance(d, VInt)):
+            raise X.Unsupported("walker state variables not of the expected kinds")
+        from pyvc import ops
+        return ops.int_term(g), on.t, ops.int_term(d)
+
+    def outs(lc):
+        r = []
+        for nm in ("result", "current_page"):
+            v = lc.st.lookup(nm)
+            n_, c_, _l = _sl(lc.st, v)
+            r.append((n_, c_))
+        return r
+
+    def step(a, b):
+        g0, on0, d0 = vars_(a)
+        g1, on1, d1 = vars_(b)
+        same = z3.And([z3.And(x[0] == y[0], x[1] == y[1]) for x, y in zip(outs(a), outs(b))])
+        return Conj([("skip-starts-on-entering-a-group-and-targets-it", z3.Implies(z3.And(z3.Not(on0), on1), z3.And(g1 == g0 + 1, d1 == g1))),
+                     ("skip-target-fixed-and-ends-at-its-own-closing-brace",
+                      z3.Implies(on0, z3.Or(z3.And(on1, d1 == d0), z3.And(z3.Not(on1), g0 == d0, g1 == g0 - 1)))),
+                     ("nothing-emitted-while-skipping", z3.Implies(on0, same))])
+
+    decode = FnContract(target=f"{RTF}::_decode_unicode_run", params=[("run", unk())], assumed=True,
+                        result_maker=lambda ex, st, ctx: VStr(z3.String(fresh_name("decoded"))), note="\\uN decoding: some string (C04 decides which)")
+    spec = LoopSpec(label="characters")
+    spec.step = step
+    walker = FnContract(
+        target=f"{RTF}::_RtfParser._strip_rtf_full_with_pages",
+        params=[("self", p_self), ("text", p_str())],
+        raises=[Raises("Exception", sub=True)],
+        modifies=("self",),
+        loops={0: spec},
+        note="names the three state variables of the walker (group_depth, skip_group, skip_depth) and its two output lists",
+    )
+    return [isskip, decode, walker]
+
+
 def contracts(reg):
     X.install(reg)
     out = []
@@ -705,6 +859,8 @@ def contracts(reg):
     out += dt_contracts(reg)
     out += html_contracts(reg)
     out += xls_contracts()
+    out += builder_contracts(reg)
+    out += rtf_contracts()
     return out
 
 
@@ -820,6 +976,10 @@ FUNC_OF_CHECK = {
     "odf.element_text": "_shared.py::element_text",
     "odg.text": "odg_extractor.py::_extract_full_text",
     "pptx.paragraphs": "pptx_extractor.py::_extract_text_from_paragraphs",
+    "odp.slide": "odp_extractor.py::_extract_slide",
+    "html.source": "html_extractor.py::read_html",
+    "rtf.source": "rtf_extractor.py::read_rtf",
+    "epub.source": "epub_extractor.py::read_epub",
 }
 
 
@@ -865,7 +1025,206 @@ def bounded_native(repo, tier):
     return {"obligations": obls, "functions": [], "errors": errors}
 
 
-EXTRA = [bounded_native]
+# =====================================================================================
+# Code fragments under contract (real AST, symbolic execution of one loop iteration).
+#
+# odp_extractor._extract_slide, text-box paragraph loop.  Statement: every visible paragraph of a slide appears
+# exactly once in the slide text (title / body_text / other_text, which text_combined concatenates); comment
+# paragraphs and blank ones contribute nothing; speaker notes go to `notes` only.
+#   one iteration on paragraph p, text = strip(odf_text(p)):
+#     excluded(p) or text == ""  ->  title, body_text, other_text unchanged
+#     otherwise exactly one of:    title' == text (only when no title was found before; found_title' holds)
+#                                  body_text'  == body_text  + [text]
+#                                  other_text' == other_text + [text]          and the other two unchanged
+#   coupling kept by every iteration:  found_title  <=>  title != ""
+# =====================================================================================
+ODP = "sharepoint2text/parsing/extractors/open_office/odp_extractor.py"
+_ODF_TEXT_NS = "{urn:oasis:names:tc:opendocument:xmlns:text:1.0}"
+_ODF_STD = (_ODF_TEXT_NS + "s", _ODF_TEXT_NS + "tab", _ODF_TEXT_NS + "line-break", _ODF_TEXT_NS + "c")     # ODF 1.2 names, not read from the code
+ODP_SKIP = X.const_strset(["{urn:oasis:names:tc:opendocument:xmlns:office:1.0}annotation"])                 # comments are not slide text
+
+
+def _iter_p_loops(fnode):
+    import ast
+    out = []
+    for n in ast.walk(fnode):
+        if isinstance(n, ast.For) and isinstance(n.iter, ast.Call) and isinstance(n.iter.func, ast.Attribute) and n.iter.func.attr == "iter" \
+                and len(n.iter.args) == 1 and ast.unparse(n.iter.args[0]) == "_TEXT_P_TAG" and isinstance(n.target, ast.Name):
+            stores = {ast.unparse(x.func.value) for x in ast.walk(n) if isinstance(x, ast.Call) and isinstance(x.func, ast.Attribute) and x.func.attr == "append"}
+            stores |= {ast.unparse(t) for x in ast.walk(n) if isinstance(x, ast.Assign) for t in x.targets if isinstance(t, ast.Attribute)}
+            out.append((n, stores))
+    return out
+
+
+def fragment_obligations(repo, tier):
+    import ast
+    from pyvc import loader, verify
+    from pyvc.contracts import Registry
+    from pyvc.exctypes import Universe
+    from pyvc.state import Frame, State, HeapObj
+    from pyvc.flow import ground_obligation
+    obls, fns, undecided = [], [], []
+    mod = loader.module(ODP, repo)
+    fnode = mod.functions.get("_extract_slide")
+    if fnode is None:
+        return {"obligations": [], "undecided": [{"obligation": f"{ODP}::_extract_slide", "why": "contract-target-missing"}]}
+    loops = [(n, st) for n, st in _iter_p_loops(fnode) if any(x.startswith("slide.") for x in st)]
+    text_loops = [n for n, st in loops if not any("notes" in x for x in st)]
+    note_loops = [n for n, st in loops if any("notes" in x for x in st)]
+    pre = "C02/odp_extractor.py::_extract_slide/block#"
+    if len(text_loops) != 1 or len(note_loops) != 1:
+        return {"obligations": [ground_obligation(pre + "paragraph-loops-recognised", False, f"{len(text_loops)} text loop(s), {len(note_loops)} notes loop(s)",
+                                                  "odp_extractor.py", definite=False)]}
+    reg = Registry()
+    for c in contracts(reg):
+        reg.add(c)
+    uni = Universe(repo)
+    for kind, loop in (("slide-text", text_loops[0]), ("speaker-notes", note_loops[0])):
+        ex = EXECUTOR(mod, reg, uni)
+        ex.oid_prefix = "C02/odp_extractor.py::_extract_slide"
+        st = State()
+        p = z3.Const("p", ELEM)
+        title = z3.String("slide.title")
+        found = z3.Bool("found_title")
+        lists = {}
+        for f in ("body_text", "other_text", "notes"):
+            n, cat, lead = z3.Int(f"slide.{f}.len"), z3.String(f"slide.{f}.cat"), z3.String(f"slide.{f}.lead")
+            st.assume(X.slist_wf(n, cat, lead))
+            lists[f] = (X.mk_slist(ex, st, n, cat, lead, fresh=False), n, cat)
+        slide = VRef(st.alloc(HeapObj("obj", {"title": VStr(title), "body_text": lists["body_text"][0], "other_text": lists["other_text"][0],
+                                              "notes": lists["notes"][0]}, "OdpSlide", False), ex.refs))
+        ids = VExt("IdSet", z3.Const("comment_paragraphs", X.IDSET))
+        env = {loop.target.id: VExt("Elem", p), "slide": slide, "found_title": VBool(found)}
+        # any set of identities the enclosing code computed (the comment paragraphs)
+        for nm in {x.id for x in ast.walk(loop) if isinstance(x, ast.Name) and isinstance(x.ctx, ast.Load)}:
+            if "comment" in nm and nm not in env:
+                env[nm] = ids
+        st.frames = [Frame(env, None, fnode)]
+        st.assume(found == (title != lit("")))
+        entry = st.fork()
+        ex.cur_fn_stack.append(fnode)
+        ex.sinks.append([])
+        try:
+            outs = ex.exec_block(loop.body, st)
+        except X.Unsupported as e:
+            undecided.append({"obligation": pre + kind, "why": "OUT-OF-SUBSET " + str(e)})
+            continue
+        finally:
+            ex.sinks.pop()
+            ex.cur_fn_stack.pop()
+        text = T.STRIP(ODF_TEXT(p, lit(_ODF_STD[0]), lit(_ODF_STD[1]), lit(_ODF_STD[2]), lit(_ODF_STD[3]), ODP_SKIP))
+        excluded = X.ID_MEMBER(ids.t, X.ID_OF(p))
+        for o in outs:
+            if o.kind not in ("fall", "continue"):
+                continue
+            d = o.st.obj(slide.ref).data
+            t1 = d["title"].t if isinstance(d["title"], VStr) else None
+            f1 = o.st.lookup("found_title")
+
+            def lst(f):
+                n1, c1, _l = _sl(o.st, d[f]) if isinstance(d[f], VRef) else (None, None, None)
+                return n1, c1
+            same = lambda f: z3.And(lst(f)[0] == lists[f][1], lst(f)[1] == lists[f][2]) if lst(f)[0] is not None else z3.BoolVal(False)
+            grew = lambda f: z3.And(lst(f)[0] == lists[f][1] + 1, lst(f)[1] == cc(lists[f][2], text)) if lst(f)[0] is not None else z3.BoolVal(False)
+            t_same = (t1 == title) if t1 is not None else z3.BoolVal(False)
+            if kind == "slide-text":
+                once = z3.Or(z3.And(t1 == text, z3.Not(found), same("body_text"), same("other_text")) if t1 is not None else z3.BoolVal(False),
+                             z3.And(t_same, grew("body_text"), same("other_text")),
+                             z3.And(t_same, same("body_text"), grew("other_text")))
+                nothing = z3.And(t_same, same("body_text"), same("other_text"))
+                hidden = z3.Or(excluded, text == lit(""))
+                goals = [("visible-paragraph-stored-exactly-once", z3.Implies(z3.Not(hidden), once)),
+                         ("comment-or-blank-paragraph-stored-nowhere", z3.Implies(hidden, nothing)),
+                         ("notes-untouched", same("notes")),
+                         ("found_title<=>title-set", (f1.t == (t1 != lit(""))) if isinstance(f1, VBool) and t1 is not None else z3.BoolVal(False))]
+            else:
+                goals = [("speaker-notes-never-reach-the-slide-text", z3.And(t_same, same("body_text"), same("other_text")))]
+            for label, g in goals:
+                ex.add_vc("block", f"{kind}.{label}", o.st.pc, g, loc=f"{ODP}:{loop.lineno}")
+        for ob in ex.obls.values():
+            obls.append(dict(verify.discharge(ob, None, {}), function=f"{ODP}::_extract_slide"))
+    fns.append(dict(mod.fn_info("_extract_slide"), obligations=len(obls)))
+    r2 = pptx_fragment(repo, reg, uni)
+    obls += r2["obligations"]
+    fns += r2["functions"]
+    undecided += r2["undecided"]
+    return {"obligations": obls, "functions": fns, "undecided": undecided}
+
+
+# pptx_extractor._process_slide_from_context, placeholder classification of a shape's text.  Statement: the text of every
+# shape appears exactly once in the slide text (ordered_content, from which base_text is joined), except the documented
+# exclusions: footer, date and header placeholders (and the slide-image placeholder of notes pages).
+PPTX = "sharepoint2text/parsing/extractors/ms_modern/pptx_extractor.py"
+PPTX_EXCLUDED_PH = ["ftr", "dt", "hdr", "sldImg"]
+
+
+def pptx_fragment(repo, reg, uni):
+    import ast
+    from pyvc import loader, verify
+    from pyvc.state import Frame, State, HeapObj
+    from pyvc.flow import ground_obligation
+    pre = "C02/pptx_extractor.py::_process_slide_from_context/block#"
+    mod = loader.module(PPTX, repo)
+    fnode = mod.functions.get("_process_slide_from_context")
+    if fnode is None:
+        return {"obligations": [], "functions": [], "undecided": [{"obligation": f"{PPTX}::_process_slide_from_context", "why": "contract-target-missing"}]}
+    cands = [n for n in ast.walk(fnode) if isinstance(n, ast.If) and ast.unparse(n.test) == "ph is not None"
+             and any(isinstance(x, ast.Name) and x.id == "TITLE_TYPES" for x in ast.walk(n))]
+    if len(cands) != 1:
+        return {"obligations": [ground_obligation(pre + "classification-recognised", False, f"{len(cands)} candidate statement(s)", "pptx_extractor.py", definite=False)],
+                "functions": [], "undecided": []}
+    stmt = cands[0]
+    obls, undecided = [], []
+    ex = EXECUTOR(mod, reg, uni)
+    ex.oid_prefix = "C02/pptx_extractor.py::_process_slide_from_context"
+    for alt in ("placeholder", "no-placeholder"):
+        st = State()
+        text = z3.String("text")
+        st.assume(z3.Length(text) > 0)
+        ph = z3.Const("ph", ELEM)
+        lists = {}
+        for f in ("content_placeholders", "other_textboxes"):
+            n, cat, lead = z3.Int(f"{f}.len"), z3.String(f"{f}.cat"), z3.String(f"{f}.lead")
+            st.assume(X.slist_wf(n, cat, lead))
+            lists[f] = (X.mk_slist(ex, st, n, cat, lead, fresh=False), n, cat)
+        oc = VRef(st.alloc(HeapObj("list", [], None, False), ex.refs))
+        env = {"ph": VExt("Elem", ph) if alt == "placeholder" else NONE, "text": VStr(text), "position": VUnk("position"),
+               "slide_title": VStr(z3.String("slide_title")), "slide_footer": VStr(z3.String("slide_footer")),
+               "content_placeholders": lists["content_placeholders"][0], "other_textboxes": lists["other_textboxes"][0], "ordered_content": oc}
+        st.frames = [Frame(env, None, fnode)]
+        ex.cur_fn_stack.append(fnode)
+        ex.sinks.append([])
+        try:
+            outs = ex.exec_stmt(stmt, st)
+        except X.Unsupported as e:
+            undecided.append({"obligation": pre + "shape-text", "why": "OUT-OF-SUBSET " + str(e)})
+            continue
+        finally:
+            ex.sinks.pop()
+            ex.cur_fn_stack.pop()
+        ptype = z3.If(ATTR_HAS(ph, lit("type")), ATTR(ph, lit("type")), lit(""))
+        excluded = z3.BoolVal(False) if alt == "no-placeholder" else z3.Or([ptype == lit(k) for k in PPTX_EXCLUDED_PH])
+        for o in outs:
+            if o.kind != "fall":
+                continue
+            items = o.st.obj(oc.ref).data
+            if items is None or len(items) > 1:
+                g_once, g_excl = z3.BoolVal(False), z3.BoolVal(False)
+            elif len(items) == 1:
+                it = items[0]
+                ok = isinstance(it, VTuple) and len(it.items) == 3 and isinstance(it.items[2], VStr)
+                g_once = (it.items[2].t == text) if ok else z3.BoolVal(False)
+                g_excl = z3.Not(excluded)
+            else:
+                g_once, g_excl = excluded, z3.BoolVal(True)
+            ex.add_vc("block", "shape-text.visible-shape-text-enters-the-slide-text-exactly-once", o.st.pc, g_once, loc=f"{PPTX}:{stmt.lineno}")
+            ex.add_vc("block", "shape-text.footer-date-header-placeholders-stay-out", o.st.pc, g_excl, loc=f"{PPTX}:{stmt.lineno}")
+    for ob in ex.obls.values():
+        obls.append(dict(verify.discharge(ob, None, {}), function=f"{PPTX}::_process_slide_from_context"))
+    return {"obligations": obls, "functions": [dict(mod.fn_info("_process_slide_from_context"), obligations=len(obls))], "undecided": undecided}
+
+
+EXTRA = [bounded_native, fragment_obligations]
 
 
 def known_findings(kf, violations, repo, tier):
